@@ -334,10 +334,21 @@ _sys.path.insert(0, _os.path.join(_os.path.dirname(_os.path.dirname(_os.path.abs
 import tsx as _tsx
 ASSUMPTIONS = [a for a in ASSUMPTIONS if not a.startswith("rate limiter")] + _tsx.ASSUMPTIONS
 TRUSTED = TRUSTED + _tsx.TRUSTED
-UNPROVED = UNPROVED + ["Relic.Props.C10.attach_site_vsix_genuine_full (false on the unchanged tree: attach_site_vsix_unchecked, finding F52; "
-                       "proved: attach_site_vsix_genuine_partial = without a memcache, and attach_site_genuine for every site that checks)"]
 _run_c10 = run
 
 
 def run(ctx):
     return _tsx.combined(ctx, _run_c10, "C10")
+
+
+# --- CMS verification ops (harness/cms): which signer info and certificate SignedData.Verify reports (the countersignature
+# is looked up in the reported signer info and the chain is judged for the reported certificate)
+import composite as _composite
+_run_c10_tsx = run
+
+
+def run(ctx):
+    own, none = _composite.split_replay(ctx, ["cms"])
+    cov, f, k = ({"evaluations": 0, "distinct_nontrivial": 0}, [], []) if none else _run_c10_tsx(own)
+    return _composite.second(ctx, "C10", "C10CM", ["cms"], cov, f, k,
+                             "Relic.Props.C02.cms_accept_implies (model Relic.Cms vs lib/pkcs7 Verify: reported signer info and certificate)")
